@@ -72,12 +72,12 @@ UnKnown(ev, k) ==
 
 \* {"ev":"muldiv","op":..,"w":..,"ax":..,"dx":..,"fin":..,"vs":[..],"oax":[..],"odx":[..],"fl":[..],"out":[0 NEXT /1 INT0 /2 PANIC]}
 MdOk(ev, r, k) ==
-  LET undef == IF r.ok /\ ~r.qmin THEN r.undef ELSE Status
+  LET undef == IF r.ok /\ ~(r.qmin /\ AcceptMinQuotientTrap) THEN r.undef ELSE Status
       ef == NewFlags(ev.fin, r.def, r.fl)
       flok == (ev.fl[k] & (65535 - undef)) = (ef & (65535 - undef))
       good == ev.out[k] = 0 /\ ev.oax[k] = r.ax /\ ev.odx[k] = r.dx /\ flok
       err  == ev.out[k] = 1 /\ (ev.fl[k] & (65535 - Status)) = (ev.fin & (65535 - Status))
-  IN IF ~r.ok THEN err ELSE IF r.qmin THEN good \/ err ELSE good
+  IN IF ~r.ok THEN err ELSE IF r.qmin /\ AcceptMinQuotientTrap THEN good \/ err ELSE good
 MulDivBad(ev) ==
   FB(ev) \cup
   {k \in DOMAIN ev.vs : ~MdOk(ev, MulDiv(ev.op, ev.w, ev.ax, ev.dx, ev.vs[k]), k)}
